@@ -107,6 +107,14 @@ def ct_cases(r, tier):
     cases.append(("ed.add", "ed.add {0} {1}", [(pt[1].hex(), pt[1].hex()), (pt[0].hex(), pt[0].hex()), (pt[2].hex(), pt[3].hex()), (pt[4].hex(), pt[4].hex())]))
     cases.append(("ed.select", "ed.select %s {0}" % B, [(str(x),) for x in (-8, -1, 0, 1, 7, 8)]))
     cases.append(("ed.basepoint_table", "ed.basepoint_table {0}", [(H(a),) for a in (0, 1, L - 1, r.below(L))]))
+    # every basepoint-table radix, reduced scalars and CLAMPED unreduced secrets (extreme top bits: the recoding's carry digit)
+    # (table creation runs under the tracer too, outside the window: ~30 s per case for the big radices, so the quick tier keeps the
+    # two extreme radices and the clamped secrets; the thorough tier runs all five radices with reduced and clamped secrets)
+    for radix in ((16, 256) if tier == "quick" else (16, 32, 64, 128, 256)):
+        if tier != "quick":
+            cases.append(("ed.table:r%d" % radix, "ed.table %d %s {0}" % (radix, B), [(H(a),) for a in (0, L - 1, r.below(L))]))
+        cases.append(("ed.table_clamped:r%d" % radix, "ed.table_clamped %d %s {0}" % (radix, B),
+                      [(H(a),) for a in ((0, (1 << 256) - 1, int("42" * 32, 16)) if tier == "quick" else (0, (1 << 256) - 1, int("42" * 32, 16), rnd()))]))
     cases.append(("ris.mul", "ris.mul %s {0}" % rpts[0], [(H(a),) for a in (0, 1, L - 1, r.below(L))]))
     cases.append(("ris.eq", "ris.eq {0} {1}", [(rpts[0], rpts[0]), (rpts[0], rpts[1]), (risid, risid), (risid, rpts[2])]))
     cases.append(("ris.elligator", "ris.elligator {0}", [(H(a),) for a in (0, 1, P - 1, pyref.SQRT_M1, rnd())]))
@@ -210,6 +218,25 @@ def extra_C14(ctx):
             for ty in ("ristretto", "cristretto"):
                 lines.append("zero.explicit.%s %s" % (ty, rp.hex())); meta.append(("explicit", ty, rp))
             lines.append("zero.explicit.montgomery " + s.hex()); meta.append(("explicit", "montgomery", s))
+        # raw image after an explicit zeroize() of a COMPUTED value: one constant per type, whatever the value was - in particular for
+        # algebraically exceptional values in non-canonical internal representations (identity reached as small-order point times a
+        # clamped scalar, as [l]P, as P - P', as 0 * P; torsion points; zero scalar products)
+        T8 = [pyref.compress(t) for t in pyref.T8]
+        Bc = pyref.compress(pyref.B)
+        Bt = pyref.compress(pyref.add(pyref.B, pyref.T8[3]))
+        risB = pyref.ris_encode(pyref.B)
+        for i in range(nsec + 1):
+            k = bytearray(r.bytes(32)); k[0] &= 248; k[31] &= 127; k[31] |= 64
+            ks = bytes(k).hex()
+            rs = r.bytes(32).hex()
+            for pt in [Bc, Bt] + T8:
+                lines.append("zero.rawexplicit.edwards_clamped %s %s" % (pt.hex(), ks)); meta.append(("rawexplicit", "edwards", None))
+                lines.append("zero.rawexplicit.edwards_mul %s %s" % (pt.hex(), rs)); meta.append(("rawexplicit", "edwards", None))
+            for sc in (H(0), H(L - 1), H(8), rs):
+                lines.append("zero.rawexplicit.edwards_mul %s %s" % (Bc.hex(), sc)); meta.append(("rawexplicit", "edwards", None))
+                lines.append("zero.rawexplicit.edwards_sub %s %s" % (Bt.hex(), sc)); meta.append(("rawexplicit", "edwards", None))
+                lines.append("zero.rawexplicit.ristretto_mul %s %s" % (risB.hex(), sc)); meta.append(("rawexplicit", "ristretto", None))
+                lines.append("zero.rawexplicit.scalar_mul %s %s" % (rs, sc)); meta.append(("rawexplicit", "scalar", None))
         # heap: same public points, different secret scalars => identical freed contents
         for n in ([0, 1, 2, 3, 8] if ctx.tier == "quick" else [0, 1, 2, 3, 8, 64, 200]):
             pts = ",".join(pyref.compress(pyref.smul(5 + j, pyref.B)).hex() for j in range(n)) or "-"
@@ -241,6 +268,7 @@ def extra_C14(ctx):
         expected_explicit = {"scalar": "00" * 32, "edwards": "01" + "00" * 31, "cedwards": "01" + "00" * 31, "ristretto": "00" * 32,
                              "cristretto": "00" * 32, "montgomery": "00" * 32}
         heap_prev = {}
+        raw_image = {}
         for line, (kind, ty, s), o in zip(lines, meta, outs):
             if not o.startswith("ok"):
                 violations.append({"kind": "zeroize", "cfg": cfg, "request": line, "driver": o, "detail": "op failed"})
@@ -263,6 +291,11 @@ def extra_C14(ctx):
                                        "detail": "secret bytes survive drop: %s" % leaked if leaked else "object not all-zero after drop"})
                 if len(samples) < 4:
                     samples.append({"cfg": cfg, "request": line[:60], "after_drop": o[:80]})
+            elif kind == "rawexplicit":
+                if ty in raw_image and raw_image[ty][0] != f[1]:
+                    violations.append({"kind": "zeroize", "cfg": cfg, "request": line, "request_b": raw_image[ty][1], "driver": o[:400],
+                                       "detail": "storage after zeroize() depends on the value that was held (two different raw images for type %s)" % ty})
+                raw_image.setdefault(ty, (f[1], line))
             elif kind == "explicit":
                 if f[1] != expected_explicit[ty]:
                     violations.append({"kind": "zeroize", "cfg": cfg, "request": line, "driver": o, "detail": "explicit zeroize did not reset to zero/identity"})
